@@ -1,6 +1,7 @@
 import MimeModel.Model.Detect
 import MimeModel.Model.MediaType
 import MimeModel.Model.MediaTypeU
+import MimeModel.Model.XmlFull
 import MimeModel.Model.Reader
 import MimeModel.Gen.Tree
 import MimeModel.Spec.All
@@ -507,18 +508,17 @@ def handle (line : String) : String :=
         let ext : Ext := { cust := fun _ _ _ => false, htmlToks := fun x => HtmlTok.startTagsFull x, xmlInst := fun x => XmlTok.firstProcInst (trimLWS x) }
         let cs := match chain with
           | [] => []
-          | leaf :: _ => charsetFor ext leaf.mime h
+          | leaf :: _ => if leaf.mime == mimeTextXml then XmlFull.fromXMLFull h (ext.xmlInst h) else charsetFor ext leaf.mime h
         let leafStr := match chain with
           | [] => []
           | leaf :: _ => MT.withCharset leaf.mime cs
         let m := chainStr chain ++ " " ++ bhex leafStr
         let d1 := if bad.isEmpty then "" else "DIFF verdicts " ++ String.intercalate ";" bad
         let goChain := (goRes.splitOn " ").headD ""
-        -- an XML label with non-ASCII bytes goes through Go's strings.ToLower (Unicode case mapping, U+FFFD for
-        -- invalid bytes), which the byte-level model does not cover: there the chain is compared, the label is not
-        -- (HTML labels are lower-cased byte-wise, text/plain has none: those are compared in full)
+        -- XML labels go through the full model of Go's strings.ToLower (Unicode case mapping, U+FFFD for invalid
+        -- bytes); HTML labels are lower-cased byte-wise, text/plain has none: every result string is compared
         let d2 := if chainStr chain == goChain then
-                    (if m == goRes || (!isAsciiBytes cs && (chain.head?.map (·.mime)) == some mimeTextXml) then "" else s!"DIFF leaf model={m}")
+                    (if m == goRes then "" else s!"DIFF leaf model={m}")
                   else s!"DIFF walk model={m} ; SPEC C03:chain-not-first-match-path"
         -- the specification oracle judges the implementation's own result
         let sp := match parseGoWalk goRes with
@@ -584,13 +584,12 @@ def handle (line : String) : String :=
           let cchain := (T.walk macc).reverse
           let ccs := match cchain with
             | [] => []
-            | leaf :: _ => charsetFor Closed.ext leaf.mime h
+            | leaf :: _ => if leaf.mime == mimeTextXml then XmlFull.fromXMLBytesFull h else charsetFor Closed.ext leaf.mime h
           let mc := chainStr cchain
           let ms := match cchain with
             | [] => []
             | leaf :: _ => MT.withCharset leaf.mime ccs
           if mc != goChain then s!"DIFF closed-detect chain model={mc}"
-          else if !isAsciiBytes ccs && (cchain.head?.map (·.mime)) == some mimeTextXml then ""
           else if mc ++ " " ++ bhex ms == goRes then "" else s!"DIFF closed-detect string model={bhex ms}"
         -- a detector that wrote into its input (harness verdict `W`): what the following detectors see — and what
         -- the caller's buffer holds afterwards — then depends on how far the walk got
@@ -632,8 +631,9 @@ def handle (line : String) : String :=
         -- the decoder step is computed by the model of encoding/xml's first raw token and compared with the library's
         let mi := XmlTok.firstProcInst (trimLWS raw)
         let di := if mi == ins then "" else s!"DIFF xmlinst model={showInst mi}"
-        let m := bhex (XmlTok.fromXMLBytes raw)
-        let d := if m == goRes || !isAsciiBytes (XmlTok.fromXMLBytes raw) then "" else s!"DIFF cs-xml model={m}"
+        -- the label goes through the full model of strings.ToLower (Model/ToLower.lean): every label is compared
+        let m := bhex (XmlFull.fromXMLBytesFull raw)
+        let d := if m == goRes then "" else s!"DIFF cs-xml model={m}"
         -- no encoding declared: the sniffing rules of C11 apply to the result
         let declared := match ins with
           | some i => Charset.xmlEncoding i != []
